@@ -71,6 +71,18 @@ class World(object):
         self.tm.register_callback(lambda t, s: self.cb_log.append((t.uid, s)))
 
         # establish binding and state through the real update path
+        self.setup_exc = None
+        try:
+            self._setup(cfg, late)
+        except AssertionError:
+            raise
+        except Exception as e:
+            # a legal notification made the handler raise
+            self.setup_exc = e
+        self.cb_log = list()
+        self.n_pub  = len(self.net.pub_log)
+
+    def _setup(self, cfg, late):
         for uid, (pid, state) in zip(UIDS, cfg):
             d = {'uid': uid, 'type': 'task', 'state': state}
             if pid:
@@ -123,8 +135,6 @@ class World(object):
             assert self.tasks[uid].state == state, (uid, state)
             assert (self.tasks[uid].pilot or None) == pid, \
                    (uid, pid, self.tasks[uid].pilot)
-        self.cb_log = list()
-        self.n_pub  = len(self.net.pub_log)
 
     def _scheduler(self):
         if getattr(self, '_sched', None) is None:
@@ -150,6 +160,13 @@ def run_case(part, cfg, ending, late=False):
 
     w = World(cfg, late)
     replay = {'cfg': [list(c) for c in cfg], 'ending': ending, 'late': late}
+    if w.setup_exc is not None:
+        part.violation('notification-raises|TaskManager._update_tasks|%s'
+                       % type(w.setup_exc).__name__,
+                       {'what': 'bringing the tasks into %s through in-order '
+                                'notifications raised %r' % (cfg, w.setup_exc)},
+                       replay)
+        return
     shape  = lambda uid, pid: '%s:%s' % (
              'own' if w.bound[uid] == pid else
              'unbound' if not w.bound[uid] else 'other',
@@ -269,6 +286,16 @@ def _race_job(args):
     t1_state, notif, p_end, bound = args
     part = report.Part()
     cfg  = (('p1', t1_state), ('p2', rps.AGENT_EXECUTING), ('p1', rps.DONE))
+
+    w_probe = World(cfg)
+    if w_probe.setup_exc is not None:
+        part.violation('notification-raises|TaskManager._update_tasks|%s'
+                       % type(w_probe.setup_exc).__name__,
+                       {'what': 'bringing the tasks into %s through in-order '
+                                'notifications raised %r'
+                                % (cfg, w_probe.setup_exc)},
+                       {'race': [t1_state, notif, p_end]})
+        return part.dump()
 
     def make_world(s):
         w = World(cfg)
